@@ -4,6 +4,7 @@ package completenesschecking
 
 import (
 	"context"
+	"io"
 
 	remoteexecution "github.com/bazelbuild/remote-apis/build/bazel/remote/execution/v2"
 	vnd "github.com/buildbarn/bb-storage/internal/verifnd"
@@ -212,6 +213,7 @@ type verifFlakyCAS struct {
 	treeDigest digest.Digest
 	treeData   []byte
 	integrity  int
+	sources    []*verifTreeSource
 }
 
 var verifErrCASUnavailable = status.Error(codes.Unavailable, "verif: CAS unavailable")
@@ -234,13 +236,48 @@ func (c *verifFlakyCAS) Get(ctx context.Context, d digest.Digest) buffer.Buffer 
 		return buffer.NewBufferFromError(verifErrCASUnavailable)
 	}
 	if c.treeData != nil && d == c.treeDigest {
-		return buffer.NewCASBufferFromByteSlice(d, c.treeData, buffer.BackendProvided(func(ok bool) {
+		c.Calls = append(c.Calls, verifstub.Call{Op: "Get", Digests: []digest.Digest{d}})
+		src := &verifTreeSource{data: c.treeData}
+		c.sources = append(c.sources, src)
+		return buffer.NewCASBufferFromReader(d, src, buffer.BackendProvided(func(ok bool) {
 			if !ok {
 				c.integrity++
 			}
 		}))
 	}
 	return c.Model.Get(ctx, d)
+}
+
+// verifTreeSource is the stream behind a Tree served by the CAS; it counts its
+// Close calls (a reader that is never closed pins a block of a real back end).
+type verifTreeSource struct {
+	data   []byte
+	pos    int
+	closes int
+}
+
+func (s *verifTreeSource) Read(p []byte) (int, error) {
+	if s.closes > 0 {
+		vnd.Unreachable("Tree stream read after Close")
+	}
+	if s.pos >= len(s.data) {
+		return 0, io.EOF
+	}
+	n := copy(p, s.data[s.pos:])
+	s.pos += n
+	return n, nil
+}
+
+func (s *verifTreeSource) Close() error {
+	s.closes++
+	return nil
+}
+
+// verifCheckSources: every Tree stream handed out was closed exactly once.
+func verifCheckSources(c *verifFlakyCAS) {
+	for _, src := range c.sources {
+		vnd.Assert(src.closes == 1, "stream of a Tree object fetched from the CAS not closed exactly once")
+	}
 }
 
 // verifQueried reports whether slot's digest was in a FindMissing call.
@@ -335,9 +372,17 @@ func Verif_C13_Y1_ReferenceClosure() {
 	batchSize := 1 + vnd.Choose(3)
 	cas := &verifFlakyCAS{Model: verifstub.NewReliableModel("cas", w.objects), failAt: vnd.Int(-1, 6)}
 	cas.Present[verifSlotUnrelated] = false
+	if w.shape.directory {
+		// the Tree is streamed from a validating, close-counting CAS buffer
+		cas.treeDigest, cas.treeData = w.objects[verifSlotTree].Digest, w.objects[verifSlotTree].Data
+	}
 	ac := &verifActionCache{result: w.result}
 	out := verifRunGet(w, cas, ac, batchSize, 1<<20)
 	verifCheckClosure(w, cas, out)
+	verifCheckSources(cas)
+	if len(cas.sources) > 0 {
+		vnd.Cover("tree-streamed")
+	}
 	vnd.Assert(ac.gets == 1, "action cache not read exactly once")
 	if cas.failed {
 		vnd.Cover("cas-error")
@@ -428,6 +473,7 @@ func Verif_C13_Y1_TreeFaults() {
 		batchSize = 1 + vnd.Choose(3)
 	}
 	out := verifRunGet(w, cas, ac, batchSize, maxTree)
+	verifCheckSources(cas)
 	if faulty {
 		vnd.Assert(!out.returned && out.err != nil, "ActionResult returned although its Tree is truncated, corrupted or too large, or the action cache failed")
 		if ac.fail {
